@@ -1,3 +1,240 @@
-/-! # C12 — property theorems (to be written) -/
+import BddVerif.Lemmas.SerialIO
+import BddVerif.Lemmas.SerialNodes
+import BddVerif.Core.ApplyCanon
+/-!
+# C12 — text, binary and node-list serialisation round-trip under any I/O chunking
+
+Property theorems about the executable model `Model/Serial.lean` (helper lemmas: `Lemmas/Serial*.lean`).
+The byte layout (`Gen.recordLen`, `Gen.fieldLayout`) is regenerated from the Rust source on every run; the
+theorems below use it only through `layout_ok`, `record_len_is_ten` and `widths_are_u16_u32`, which are
+re-checked by `decide` against what the code says now.
+
+Environment parameters (see the trusted base): a script `List Ev` for every reader and writer (`give k`,
+`interrupted`, `fail`), and for `read_to_string` the list `wants` of buffer sizes std chooses to offer.
+-/
 namespace B.Props.C12
+open B B.Serial
+
+/-- every field fits its Rust type: `var : u16`, links `: u32` (true of every `Bdd` value) -/
+def Fits (A : Arr) : Prop := ∀ nd ∈ A.toList, nd.var < 2 ^ 16 ∧ nd.low < 2 ^ 32 ∧ nd.high < 2 ^ 32
+
+instance (A : Arr) : Decidable (Fits A) := by unfold Fits; infer_instance
+
+theorem fitsNode_of_fits {A : Arr} (h : Fits A) : ∀ nd ∈ A.toList, FitsNode nd := by
+  intro nd hnd
+  obtain ⟨a, b, c⟩ := h nd hnd
+  unfold FitsNode u16Max u32Max
+  omega
+
+/-- the regenerated widths are those of `u16` / `u32` -/
+theorem widths_are_u16_u32 : 256 ^ varW = 2 ^ 16 ∧ 256 ^ lowW = 2 ^ 32 ∧ 256 ^ highW = 2 ^ 32 := by decide
+
+theorem fitsBytes_of_fits {A : Arr} (h : Fits A) : ∀ nd ∈ A.toList, FitsBytes nd := by
+  intro nd hnd
+  obtain ⟨a, b, c⟩ := h nd hnd
+  obtain ⟨w1, w2, w3⟩ := widths_are_u16_u32
+  unfold FitsBytes
+  rw [w1, w2, w3]
+  exact ⟨a, b, c⟩
+
+theorem digitChar_ascii : ∀ d, d < 10 → (digitChar d).toNat < 0x80 := by decide
+
+theorem asciiBytes_flatten (ps : List (List Char)) : (ps.map asciiBytes).flatten = asciiBytes ps.flatten := by
+  induction ps with
+  | nil => rfl
+  | cons p ps ih =>
+    simp only [List.map_cons, List.flatten_cons, ih]
+    simp [asciiBytes]
+
+/-- the text writer emits ASCII only -/
+theorem writeText_ascii (A : Arr) : ∀ c ∈ writeText A, c.toNat < 0x80 := by
+  intro c hc
+  rw [writeText_eq_render] at hc
+  simp only [render, List.mem_cons, List.mem_flatMap, List.mem_map, List.mem_append, recBody,
+    List.not_mem_nil, or_false] at hc
+  have dig : ∀ k, c ∈ showNat k → c.toNat < 0x80 := by
+    intro k hk
+    obtain ⟨d, hd, rfl⟩ := mem_showNat k c hk
+    exact digitChar_ascii d hd
+  rcases hc with rfl | ⟨r, ⟨nd, _, rfl⟩, hc⟩
+  · decide
+  · rcases hc with (hc | rfl | hc | rfl | hc) | rfl
+    · exact dig _ hc
+    · decide
+    · exact dig _ hc
+    · decide
+    · exact dig _ hc
+    · decide
+
+/-- what `write_as_string` hands to a sink that accepts everything, as bytes -/
+theorem writeTextIO_plain (A : Arr) : writeTextIO A [] = (true, asciiBytes (writeText A), []) := by
+  obtain ⟨s', hs', e⟩ := writePieces_ok ((textPieces A).map asciiBytes) [] (by intro e he; simp at he)
+  have : s' = [] := List.eq_nil_of_suffix_nil hs'
+  subst this
+  unfold writeTextIO
+  rw [e, asciiBytes_flatten]
+  rfl
+
+/-! ## Round trips -/
+
+/-- **text_roundtrip** (characters): reading back what `write_as_string` produced yields the same array -/
+theorem text_roundtrip_chars (A : Arr) (h : Fits A) : parseText (writeText A) = .ok A :=
+  parseText_writeText (fitsNode_of_fits h)
+
+/-- **text_roundtrip** (bytes, including UTF-8 decoding by `read_to_string`) -/
+theorem text_roundtrip (A : Arr) (h : Fits A) : readText (asciiBytes (writeText A)) = .ok A := by
+  unfold readText
+  rw [← utf8Encode_ascii _ (writeText_ascii A), utf8Decode_encode]
+  exact text_roundtrip_chars A h
+
+/-- reading a byte vector through a reader without script = decoding record by record -/
+theorem readBytes_eq (data : List UInt8) : readBytes data = .ok (decodeRecs data #[]) :=
+  readBytesIO_ok data.length data [] #[] (Nat.le_refl _) (by intro e he; simp at he)
+
+/-- **bytes_roundtrip** -/
+theorem bytes_roundtrip (A : Arr) (h : Fits A) : readBytes (writeBytes A) = .ok A := by
+  rw [readBytes_eq, writeBytes_eq, decodeRecs_encode _ _ (fitsBytes_of_fits h)]
+  simp
+
+/-- **nodes_roundtrip**: `from_nodes(b.to_nodes()) == Ok(b)` for every diagram that is well-formed by level -/
+theorem nodes_roundtrip (A : Arr) (n : Nat) (h : WFo A n) : fromNodes (toNodes A) = .ok A := by
+  have hn : numVars A = n := by simp [numVars, h.zero]
+  exact ((fromNodes_spec A).1 A).mpr ⟨rfl, (fromNodesChecks_iff_wfo A).mpr (hn ▸ h)⟩
+
+/-- **bytes_len**: the binary form has exactly `Gen.recordLen` bytes per node … -/
+theorem bytes_len (A : Arr) : (writeBytes A).length = Gen.recordLen * A.size := by
+  rw [writeBytes_eq, flatMap_encode_length]; simp
+
+/-- … and the regenerated record length is 10 -/
+theorem record_len_is_ten : Gen.recordLen = 10 := by decide
+
+/-- a trailing partial record is ignored: the number of nodes read is `len / recordLen` -/
+theorem decodeRecs_size : ∀ (n : Nat) (data : List UInt8) (acc : Arr), data.length ≤ n →
+    (decodeRecs data acc).size = acc.size + data.length / Gen.recordLen := by
+  intro n
+  induction n with
+  | zero =>
+    intro data acc h
+    have hp := recordLen_pos
+    rw [decodeRecs_short (by omega), Nat.div_eq_of_lt (by omega)]; rfl
+  | succ n ih =>
+    intro data acc h
+    have hp := recordLen_pos
+    rcases Nat.lt_or_ge data.length Gen.recordLen with hlt | hge
+    · rw [decodeRecs_short hlt, Nat.div_eq_of_lt hlt]; rfl
+    · rw [decodeRecs_long hge, ih _ _ (by simp only [List.length_drop]; omega)]
+      simp only [Array.size_push, List.length_drop]
+      have : data.length / Gen.recordLen = (data.length - Gen.recordLen) / Gen.recordLen + 1 := by
+        rw [← Nat.sub_add_cancel hge]
+        simp [Nat.add_div_right _ hp]
+      omega
+
+/-! ## Whitespace -/
+
+/-- **text_ws_tolerant**: inserting whitespace characters (any of the 25 `White_Space` code points, ASCII or
+    not) anywhere in a text does not change what `read_as_string` returns — stated on the UTF-8 bytes -/
+theorem text_ws_tolerant (s s' : List Char) (h : WsInsert s s') :
+    readText (utf8Encode s') = readText (utf8Encode s) := by
+  unfold readText
+  rw [utf8Decode_encode, utf8Decode_encode]
+  exact parseText_filter_congr h.filter_eq
+
+/-- … in particular a serialisation with whitespace around its separators reads back as the original -/
+theorem text_roundtrip_ws (A : Arr) (h : Fits A) (s' : List Char) (hw : WsInsert (writeText A) s') :
+    readText (utf8Encode s') = .ok A := by
+  rw [text_ws_tolerant _ _ hw, utf8Encode_ascii _ (writeText_ascii A)]
+  exact text_roundtrip A h
+
+/-! ## Chunking -/
+
+/-- **chunking_irrelevant** (binary reader): through any script without hard error and without a
+    zero-length transfer — arbitrarily small pieces, interruptions anywhere — `read_as_bytes` returns what it
+    returns on the plain data -/
+theorem chunking_irrelevant_read_bytes (data : List UInt8) (script : List Ev) (h : ScriptOk script) :
+    (readBytesIO ⟨data, script⟩ #[]).1 = readBytes data := by
+  rw [readBytes_eq]
+  exact readBytesIO_ok data.length data script #[] (Nat.le_refl _) h
+
+/-- **chunking_irrelevant** (text reader), for every choice `wants` of buffer sizes by std -/
+theorem chunking_irrelevant_read_text (data : List UInt8) (script : List Ev) (wants : List Nat)
+    (h : ScriptOk script) (hw : WantsOk wants) : (readTextIO ⟨data, script⟩ wants).1 = readText data :=
+  readTextIO_ok h hw
+
+/-- **chunking_irrelevant** (binary writer with partial writes and interruptions) -/
+theorem chunking_irrelevant_write_bytes (A : Arr) (script : List Ev) (h : ScriptOk script) :
+    (writeBytesIO A script).1 = true ∧ (writeBytesIO A script).2.1 = writeBytes A := by
+  obtain ⟨s', _, e⟩ := writePieces_ok (bytePieces A) script h
+  unfold writeBytesIO
+  rw [e]
+  exact ⟨rfl, rfl⟩
+
+/-- **chunking_irrelevant** (text writer) -/
+theorem chunking_irrelevant_write_text (A : Arr) (script : List Ev) (h : ScriptOk script) :
+    (writeTextIO A script).1 = true ∧ (writeTextIO A script).2.1 = asciiBytes (writeText A) := by
+  obtain ⟨s', _, e⟩ := writePieces_ok ((textPieces A).map asciiBytes) script h
+  unfold writeTextIO
+  rw [e]
+  refine ⟨rfl, ?_⟩
+  simp only [asciiBytes_flatten]; rfl
+
+/-- the property as stated: write through any good script, read back through any good script -/
+theorem roundtrip_under_chunking (A : Arr) (h : Fits A) (sw sr : List Ev) (wants : List Nat)
+    (hsw : ScriptOk sw) (hsr : ScriptOk sr) (hw : WantsOk wants) :
+    (readBytesIO ⟨(writeBytesIO A sw).2.1, sr⟩ #[]).1 = .ok A ∧
+    (readTextIO ⟨(writeTextIO A sw).2.1, sr⟩ wants).1 = .ok A := by
+  rw [(chunking_irrelevant_write_bytes A sw hsw).2, (chunking_irrelevant_write_text A sw hsw).2,
+    chunking_irrelevant_read_bytes _ _ hsr, chunking_irrelevant_read_text _ _ _ hsr hw]
+  exact ⟨bytes_roundtrip A h, text_roundtrip A h⟩
+
+/-! ## I/O errors -/
+
+/-- **io_error_propagates** (binary reader): for EVERY script, the events split into those consumed and those
+    left; the outcome is `err` exactly when a hard error was consumed, and it is never a panic -/
+theorem io_error_propagates_read_bytes (r : Reader) :
+    ∃ consumed, r.script = consumed ++ (readBytesIO r #[]).2.script ∧
+      ((readBytesIO r #[]).1.isErr = true ↔ Ev.fail ∈ consumed) ∧ (readBytesIO r #[]).1.isPanic = false :=
+  readBytesIO_consumed r #[]
+
+/-- **io_error_propagates** (text reader): a consumed hard error gives `err`; never a panic -/
+theorem io_error_propagates_read_text (r : Reader) (wants : List Nat) :
+    ∃ consumed, r.script = consumed ++ (readTextIO r wants).2.script ∧
+      (Ev.fail ∈ consumed → (readTextIO r wants).1.isErr = true) ∧ (readTextIO r wants).1.isPanic = false :=
+  readTextIO_consumed r wants
+
+/-- **io_error_propagates** (both writers): the call returns `Err` exactly when a hard error or a zero-length
+    write (`WriteZero`) was consumed; what reached the sink is then a prefix of the full serialisation -/
+theorem io_error_propagates_write (A : Arr) (script : List Ev) :
+    (∃ consumed, script = consumed ++ (writeBytesIO A script).2.2 ∧
+      ((writeBytesIO A script).1 = false ↔ ∃ e ∈ consumed, isFault e) ∧
+      (writeBytesIO A script).2.1 <+: writeBytes A) ∧
+    (∃ consumed, script = consumed ++ (writeTextIO A script).2.2 ∧
+      ((writeTextIO A script).1 = false ↔ ∃ e ∈ consumed, isFault e) ∧
+      (writeTextIO A script).2.1 <+: asciiBytes (writeText A)) := by
+  refine ⟨writePieces_consumed (bytePieces A) script, ?_⟩
+  have := writePieces_consumed ((textPieces A).map asciiBytes) script
+  have e : ((textPieces A).map asciiBytes).flatten = asciiBytes (writeText A) := by
+    rw [asciiBytes_flatten]; rfl
+  rw [e] at this
+  exact this
+
+/-! ## Non-vacuity: the hypotheses are satisfiable on concrete non-trivial values -/
+
+/-- `x0 ∧ ¬x2`-like diagram over 3 variables with a 16-bit variable bound nearby -/
+def exA : Arr := #[⟨3, 0, 0⟩, ⟨3, 1, 1⟩, ⟨2, 1, 0⟩, ⟨0, 0, 2⟩]
+def exBig : Arr := #[⟨65535, 0, 0⟩, ⟨65535, 1, 1⟩, ⟨65534, 0, 1⟩, ⟨300, 2, 1⟩]
+def exScript : List Ev := [.give 3, .interrupted, .give 1, .give 2, .interrupted]
+
+example : Fits exA := by decide
+example : Fits exBig := by decide
+example : ScriptOk exScript := by
+  intro e he; simp [exScript] at he; rcases he with rfl | rfl | rfl | rfl | rfl <;> simp
+example : WantsOk [32, 5, 1, 32] := by intro w hw; simp at hw; omega
+example : WFo exA 3 := wfoB_sound (by decide)
+example : WsInsert ['|', '1'] [' ', '|', Char.ofNat 0x3000, '1', Char.ofNat 0xA0] :=
+  .ins _ (by decide) (.keep _ (.ins _ (by decide) (.keep _ (.ins _ (by decide) .nil))))
+example : readText (asciiBytes (writeText exBig)) = .ok exBig := text_roundtrip exBig (by decide)
+example : readBytes (writeBytes exBig) = .ok exBig := bytes_roundtrip exBig (by decide)
+example : fromNodes (toNodes exA) = .ok exA := nodes_roundtrip exA 3 (wfoB_sound (by decide))
+example : (writeBytes exA).length = 40 := by rw [bytes_len, record_len_is_ten]; rfl
+
 end B.Props.C12
